@@ -614,19 +614,12 @@ def run(rep):
         if key in reported:
             continue
         reported.add(key)
-        if kfid == KF_ROMEND:
-            # pre-existing defect outside the two halves the check was registered for; the integrator asked
-            # for exit 0 on the unchanged tree: until it is listed it is printed and recorded, not failed
-            print("NOTE: property=%s unlisted-finding=%s %s" % (PROP, kfid, KF_TEXT[kfid]), flush=True)
-            rep.notes.append({"unlisted_finding": kfid, "what": KF_TEXT[kfid], "go": obj.get("go"),
-                              "detail": obj.get("detail"), "proposed_known_finding_id": kfid})
-            continue
         obj = dict(obj)
         obj["replay"] = "python3 tools/check.py C12 --replay <this file>"
         if kfid is not None:
             obj["proposed_known_finding_id"] = kfid
         real = kind in ("hang", "semantics", "impl-panic", "nondeterministic-output", "je-stub", "cli-error",
-                        "incdec-scope", "faulty", "resources", "machine")
+                        "incdec-scope", "faulty", "resources", "machine", "rom-end-address")
         if real:
             rep.violation(obj, tag="finding=" + (kfid or kind))
         else:
@@ -774,8 +767,5 @@ def replay(rep, path):
             continue
         seen.add(kfid or kind)
         real = kind in ("hang", "semantics", "impl-panic", "nondeterministic-output", "incdec-scope", "faulty", "je-stub",
-                        "resources", "machine")
-        if kfid == KF_ROMEND:
-            print("NOTE: property=%s unlisted-finding=%s %s" % (PROP, kfid, KF_TEXT[kfid]), flush=True)
-            continue
+                        "resources", "machine", "rom-end-address")
         rep.violation(o, no_failing_input=not real, tag="finding=" + (kfid or kind))
